@@ -181,7 +181,7 @@ func c02Run(c *fw.Ctx) error {
 	paths, vals, funcs := c02Paths(), c02Values(), c02Funcs()
 	chainSources := c02ChainSrc()
 	operands := []*refsem.E{refsem.Lit(val.IntV(1)), refsem.Lit(fromJSONText("[2]")), refsem.Lit(fromJSONText(`{"c": 2}`)), refsem.Key("b")}
-	c.Res.Bound = fmt.Sprintf("%d documents x %d paths x (%d values + %d update functions + 3 compound operators x %d operands) + put-get/put-put/get-put law instances + bind-assign-assign-edit chains (4 sources x 20 path pairs x 2 tails x 2 places)", len(docs), len(paths), len(vals), len(funcs), len(operands))
+	c.Res.Bound = fmt.Sprintf("%d documents x %d paths x (%d values + %d update functions + 3 compound operators x %d operands) + put-get/put-put/get-put law instances + bind-assign-assign-edit chains (4 sources x 20 path pairs x 2 tails x 2 places) + streams: `.[] | (p op e)` for 3 paths x 4 operands x 5 forms on all pairs (and x,y,x triples) of 6 maps", len(docs), len(paths), len(vals), len(funcs), len(operands))
 	var idx int64
 	run := func(cs c02Case, order int64) {
 		kind, detail, defined := c02Check(cs)
@@ -211,6 +211,36 @@ func c02Run(c *fw.Ctx) error {
 				detail = d2 + " (first seen: " + orig + ")"
 			}
 			c.Violation(kind+":"+cs.Law+":"+sigE.String(), order, cs, fmt.Sprintf("%s on %s: %s", cs.Expr.String(), cs.Doc, detail))
+		}
+	}
+	// streams: the update is applied to every node of a stream; what a match receives depends on the node it was reached from only
+	{
+		var pool []*val.V
+		for _, t := range []string{`{"a": 1, "b": 2}`, `{"a": [2], "b": [3]}`, `{"a": "x", "b": "y"}`, `{"b": 5}`, `{"a": {"c": 2}, "b": {"d": 1}}`, `{"a": 3, "b": 4, "c": 5}`} {
+			pool = append(pool, fromJSONText(t))
+		}
+		sp := []*refsem.E{refsem.Key("a"), refsem.Key("c"), refsem.Bin("union", refsem.Key("a"), refsem.Key("c"))}
+		se := []*refsem.E{refsem.Key("b"), refsem.Lit(val.IntV(1)), refsem.Key("a"), refsem.Bin("add", refsem.Key("b"), refsem.Key("b"))}
+		for xi, x := range pool {
+			for yi, y := range pool {
+				for _, doc := range []*val.V{val.SeqV(x.Copy(), y.Copy()), val.MapV(val.StrV("p"), x.Copy(), val.StrV("q"), y.Copy()), val.SeqV(x.Copy(), y.Copy(), x.Copy())} {
+					idx++
+					if !c.Mine(idx) {
+						continue
+					}
+					for pi, p := range sp {
+						for ei, e := range se {
+							for oi, op := range []string{"addassign", "subassign", "mulassign", "assign", "update"} {
+								upd := refsem.Bin(op, p, e)
+								if op == "update" {
+									upd = refsem.Bin(op, p, refsem.Bin("add", refsem.Leaf("self"), e))
+								}
+								run(c02Case{Law: "ref", Expr: refsem.Bin("pipe", refsem.Leaf("splat"), upd), Doc: doc.JSON()}, 5e6+int64(doc.Size())*1e3+int64(xi*100+yi*10+pi+ei+oi))
+							}
+						}
+					}
+				}
+			}
 		}
 	}
 	for di, d := range docs {
